@@ -41,6 +41,9 @@ def gen_valid(rng):
         if rng.random() < 0.5:
             rng.shuffle(stages)
         pipes["p%d" % p] = stages
+        if rng.random() < 0.25:
+            # a stage naming BOTH a task and a pipeline runs the task (the pipeline key only names it): even its own pipeline is fine there
+            stages.append({"task": rng.choice(tasks), "pipeline": "p%d" % rng.randrange(p + 1), "name": "both%d" % p})
     watchers = {}
     for w in range(rng.choice([0, 0, 1, 2])):
         watchers["w%d" % w] = {"watch": ["*.txt"], "task": rng.choice(tasks)}
@@ -62,7 +65,7 @@ def breakages(cfg):
                 c["pipelines"][p][k]["task"] = "nosuchtask"
                 c["pipelines"][p][k].setdefault("name", stage_name(st))
                 yield "stage->task", c
-            if "pipeline" in st:
+            if "pipeline" in st and "task" not in st:      # (with a task given the pipeline key is not a reference)
                 c = clone()
                 c["pipelines"][p][k]["pipeline"] = "nosuchpipeline"
                 c["pipelines"][p][k].setdefault("name", stage_name(st))
@@ -100,6 +103,16 @@ def breakages(cfg):
         c["watchers"][w]["task"] = "nosuchtask"
         yield "watcher->task", c
     pn = sorted(cfg["pipelines"])
+    # inclusion cycles closed by an include that is NOT the pipeline's first one (a harmless include of an acyclic pipeline comes first)
+    for L in (1, 2, 3):
+        if len(pn) >= L:
+            c = clone()
+            c["pipelines"]["zcommon"] = [{"task": cfg["tasks"][0]}]
+            ring = pn[:L]
+            for i, p in enumerate(ring):
+                c["pipelines"][p].append({"pipeline": "zcommon", "name": "cm%d" % i})
+                c["pipelines"][p].append({"pipeline": ring[(i + 1) % L], "name": "inc%d" % i})
+            yield "inclusion-cycle-%d" % L, c
     # inclusion cycles of length 1, 2, 3 appended as extra stages
     for L in (1, 2, 3):
         if len(pn) >= L:
